@@ -39,6 +39,28 @@ CHECKS = {
                      "the same operands in the same order, calls it exactly once and clones an operand exactly when it was received by reference but is needed by value.",
                 note=E1_NOTE + " One recorded known finding (Self in the where-clause of a base impl on &T), see known_findings.json.",
                 tech="Kani/CBMC bounded model checking of macro-generated forwarding impls with call/clone traces"),
+    "C10": dict(engine="E1 kani-gen", ref="DESIGN.md §6 C10",
+                text="Kani/CBMC decides for all field payloads that the bytes written by the derive_ex Debug impl equal those of a same-named std-derived twin with the ignored fields "
+                     "deleted (or of the transparent field alone), for concrete non-alternate format specs (width, fill/align, sign, precision, hex, zero-pad); the field type echoes the flags. "
+                     "No claim for `{:#?}` on shapes with fields.",
+                note=E1_NOTE + " Restricted claim: non-alternate formatter options (PadAdapter does not finish under CBMC: measured undecided after 900 s for a 1-field struct).",
+                tech="Kani/CBMC bounded model checking of macro-generated Debug impls against a std-derived twin, byte-exact sink"),
+    "C12": dict(engine="E1 kani-gen", ref="DESIGN.md §6 C12",
+                text="Kani/CBMC decides for all values that Clone, clone_from, Default, ==, !=, partial_cmp, <, >=, cmp of the derive_ex type agree with a twin carrying #[derive(..)], that == implies "
+                     "equal Hash feeds and (debug flavour) that `{:?}` prints the same bytes, over a shape grammar (struct kinds, 0..5 variants, lifetime/type/const parameters with defaults and "
+                     "where-clauses, raw identifiers, repr/non_exhaustive). Behavioural clause; `the program compiles` is reported as rustc's verdict only.",
+                note=E1_NOTE + " Restricted claim: behavioural equivalence; compile success only as a rustc by-product; no unsized tails, no `{:#?}`.",
+                tech="Kani/CBMC bounded model checking of macro-generated impls against std-derived twins"),
+    "C13": dict(engine="E1 kani-gen", ref="DESIGN.md §6 C13",
+                text="Kani/CBMC decides for all values that representative programs of every trait family still compute the reference results when fields/variants/types/parameters carry the "
+                     "expansion's own identifiers, the use site shadows prelude and core names through a glob import, and field types have wrong-answer inherent methods named like the trait methods.",
+                note=E1_NOTE + " Restricted claim: silent capture (what the impls compute); whether a renamed program compiles is rustc's verdict; #![no_std] not examined.",
+                tech="Kani/CBMC bounded model checking of macro-generated impls under hostile names and scopes"),
+    "C15": dict(engine="E1 kani-gen", ref="DESIGN.md §6 C15",
+                text="Kani/CBMC decides for all values that the same type derived through the attribute macro, through #[derive(Ex)], with split / reordered lists and with supersets of co-derived "
+                     "traits has identical derived methods; plus E3 obligations on the entry functions, DeriveEntry::from_root and from_args_list (same initial attribute kinds, lists merged, entries in list order).",
+                note=E1_NOTE + " Restricted claim: behavioural equality, not token equality of expansions.",
+                tech="Kani/CBMC metamorphic equivalence of macro-generated impls + symbolic execution of rustc MIR for the entry-point kernel"),
     "C11": dict(engine="E1 kani-gen", ref="DESIGN.md §6 C11",
                 text="Kani/CBMC decides that default() returns the reference value for every program of a grammar over shapes, default-variant choices, per-field default "
                      "expression kinds (symbolic seeds behind call/block expressions, conversion-observing field types) and type-level values.",
